@@ -110,13 +110,6 @@ NAMES = dict(
     StrCall='_ZNK6muscle6StringclEv', MatchesPath='_ZNK6muscle11PathMatcher11MatchesPathEPKcPKNS_7MessageEPKNS_8DataNodeE',
     GetNumFilters='_ZNK6muscle11PathMatcher13GetNumFiltersEv', FN=FN)
 
-# loop contracts for the lowered text, keyed by (function, loop ordinal in source order); see cxx2c.loop_contract
-LOOPS = {
-    # for (int32 i = last; i >= 0; i--)
-    (FN, 0): '__CPROVER_assigns(i, mv_cnt_str, mv_cnt_msg, mv_iter_left, nextr_ghost)\n__CPROVER_loop_invariant(i >= -1)\n__CPROVER_decreases(i + 1)',
-}
-
-
 def lower():
     if 'L' in _cache:
         return _cache['L']
@@ -131,7 +124,7 @@ def lower():
         # 2 field-name iterator, 3 sub-message walk
         L.loop_table = {
             (FN, 0): '__CPROVER_assigns(i, mv_cnt_str, mv_cnt_msg, mv_iter_left)\n__CPROVER_loop_invariant(i >= -1)\n__CPROVER_decreases((long)i + 1)',
-            (FN, 1): '__CPROVER_assigns(nextr, rname, mv_cnt_str, mv_cnt_msg)\n__CPROVER_loop_invariant(nextr >= 0 && (unsigned int)nextr <= mv_cnt_str)\n__CPROVER_decreases(mv_cnt_str - (unsigned int)nextr)',
+            (FN, 1): '__CPROVER_assigns(nextr, rname, mv_cnt_str, mv_cnt_msg)\n__CPROVER_loop_invariant(nextr >= 0 && (unsigned int)nextr <= mv_cnt_str && mv_cnt_str < 0x7fffffffu)\n__CPROVER_decreases(mv_cnt_str - (unsigned int)nextr)',
             (FN, 2): '__CPROVER_assigns(mv_iter_left, mv_cnt_msg, mv_cnt_str, __CPROVER_object_whole(&iter))\n__CPROVER_loop_invariant(1)\n__CPROVER_decreases(mv_iter_left)',
             (FN, 3): '__CPROVER_assigns(j, mv_cnt_msg, mv_cnt_str)\n__CPROVER_loop_invariant(j <= mv_cnt_msg)\n__CPROVER_decreases(mv_cnt_msg - j)',
         }
